@@ -73,7 +73,7 @@ def keyOps (args : List String) : Option String :=
   | ["decodable", e, h] => do pure (encBool (decodable (← decHex h) (← decEnc e)))
   | ["unfinished", e, h] => do pure (encBool (couldBeUnfinishedChar (← decHex h) (← decEnc e)))
   | ["keymap", k] => do
-    pure (encExcept (encList encCps) (keymapGet Generated.configSpecials (← decCps k)))
+    pure (encExcept (encList encCps) (keymapGet Generated.configSpecialsCps (← decCps k)))
   | ["utf8enc", c] => do pure ("ok " ++ encHex (Spec.Utf8.encode (← c.toNat?)))
   | _ => none
 
